@@ -1,6 +1,6 @@
 (* C17 cost model, skip lists: the SkipCost search-cost functions instantiated on the C03 zset model (nodes with
    score, member, height; highestLevel) and on the C04 sequential skipmap/skipset model. No proofs in this file. *)
-From VF Require Import Common.Base C17.SkipCost.
+From VF Require Import Common.Base C17.SkipCost C17.SkipRes.
 From VF Require C03.Model C04.Model.
 Local Open Scope Z_scope.
 
@@ -36,4 +36,13 @@ Module SM.
      h is drawn (raising highestLevel) and, when it exceeds the value read at entry, the search is repeated *)
   Definition los_cost (k : Z) (h : nat) (s : skm) : nat :=
     (find_cost k s + if (hl s <? h)%nat then store_cost k h s else 0)%nat.
+  (* what those searches return (SkipRes): findNode's (level, node); findNodeDelete's lFound and succs[0]-chain *)
+  Definition find_result (k : Z) (s : skm) : option (nat * node) :=
+    find_res node nh (fun n => nk n <? k) (fun n => nk n =? k) (hl s) None (nodes s).
+  Definition del_result (k : Z) (s : skm) : option nat * list node :=
+    let '(lf, _, suf) := finddel_res node nh (fun n => nk n <? k) (fun n => nk n =? k) (hl s) None (nodes s) None in
+    (lf, suf).
+  (* the level-0 walk of the C04 model: skip the nodes whose key is smaller *)
+  Fixpoint skip_lt (k : Z) (l : list node) : list node :=
+    match l with [] => [] | n :: t => if nk n <? k then skip_lt k t else l end.
 End SM.
